@@ -91,6 +91,18 @@ def addresses(pattern):
             for t in (["/", "/x"] if sub else [""]):
                 out.append("".join(b) + t)
     out.append("".join(base)[:-1] + ("/" if sub else ""))
+    # an address that spells the pattern's own text - its '#', '{', ',' and '}' taken literally - is no address of the pattern
+    # (unless the pattern has no such character)
+    path_text = pattern.split(":", 1)[0]
+    out.append(path_text)
+    if sub:
+        out.append(path_text + "x")
+    # ... nor one that spells them literally in one place and properly in the others
+    for k, (kind, v) in enumerate(toks):
+        if kind in ("num", "opt"):
+            b = list(base)
+            b[k] = ("#%d" % v) if kind == "num" else "{" + ",".join(v) + "}"
+            out.append("".join(b) + ("/" if sub else ""))
     # an address may itself contain ':' (OSC does not reserve it): it never spells the pattern's type part
     if ":" in pattern:
         tail = pattern.split(":", 1)[1]
